@@ -347,9 +347,13 @@ def run(ctx, rep):
             n8 += 1
             cons = construct_of(f, "zero-counts-when-none-given")
             t = st.test
+            flip = False
+            while isinstance(t, ast.UnaryOp) and isinstance(t.op, ast.Not):
+                t = t.operand
+                flip = not flip
             is_none = isinstance(t, ast.Compare) and len(t.ops) == 1 and isinstance(t.comparators[0], ast.Constant) and t.comparators[0].value is None
-            pos = is_none and isinstance(t.ops[0], ast.Is)
-            neg = is_none and isinstance(t.ops[0], ast.IsNot)
+            pos = is_none and (isinstance(t.ops[0], ast.Is) != flip) and isinstance(t.ops[0], (ast.Is, ast.IsNot))
+            neg = is_none and (isinstance(t.ops[0], ast.IsNot) != flip) and isinstance(t.ops[0], (ast.Is, ast.IsNot))
             if (pos and zeros_body) or (neg and zeros_else):
                 rep.ok("C15.8", cons, f"`{ast.unparse(t)}` selects the zero array", f"{f.path}:{st.lineno}")
             elif is_none:
